@@ -1120,11 +1120,31 @@ PROPS = {
             "C18_native_args_t4": [],
             "C18_conversion_error_t4": [],
             "C18_reentry_balanced_partial": [],
+            "C18_native_wrapper_generic": [],
+            "C18_native_args_menu": [],
+            "C18_conversion_error_menu": [],
+            "C18_native_args_menu_simple": [],
+            "C18_native_args_cat2": [],
+            "C18_conversion_error_cat2": [],
+            "C18_native_args_tab1": [],
+            "C18_native_args_log1": [],
+            "C18_reentrant_args": [],
+            "C18_reentrant_args_call0": [],
+            "C18_run_function_enters": [],
+            "C18_registry_history": [],
+            "C18_registry_answers": [],
+            "C18_std_names_rejected": [],
+            "C18_std_natives_kept": [],
+            "C18_std_native_shadowed_by_collision": [],
+            "C18_registration_replaces": [],
+            "C18_menu_registry_is_find_native": [],
+            "C18_reentry_balanced_straightline": [],
         },
         n_quick=200, n_thorough=2000,
         gates=["feature.native", "feature.native_arity4", "feature.native_value_call", "feature.reentry",
                "outcome.conversion_error", "outcome.ETaskFailure", "outcome.EProcedureNotFound",
-               "rb1.callee_ok", "rb1.callee_failed", "reserved_names", "corpus.reentry", "corpus.natives"],
+               "rb1.callee_ok", "rb1.callee_failed", "reserved_names", "registration_history", "corpus.reentry",
+               "corpus.natives"],
         rule="the VM stream with native-heavy programs: natives fail0() / log1(Value) / str1(&str) / nil1(Nilable<i64>) / "
              "tab1(&CaoLangTable) / sub2(i64,i64) / cat2(&str,&str) / mix3(f64,i64,Value) / t4(i64,f64,bool,&str) and the "
              "re-entrant call0 / call1 / try1 / rb1, called through CallNative and through native function values "
@@ -1145,21 +1165,38 @@ PROPS = {
              "convert function input #n' with n the first parameter in conversion order (last to first) whose "
              "conv_spec fails, and the body did not run. Also code 2: rb1 entries (heights after a successful "
              "run_function equal the heights before; call depth also after a failed one), reserved names rejected, no "
-             "run ends in a Rust panic. Non-trivial / distinct as for VM",
+             "run ends in a Rust panic. REGISTRATION: one fixed history of register_native_function calls on a new VM "
+             "after the menu (reserved names, repeated names, a menu name, '_' and '__'), then CallNative(name) for a list "
+             "of probe names: which registrations were accepted and which function ran under which name, compared "
+             "with the registry model VmRegistry.v (code 1) and with a by-name specification (code 2: accepted iff the "
+             "name does not start with '__'; the last accepted registration of a name wins). "
+             "Non-trivial / distinct as for VM",
         trusted_base=COMMON_TB + [
             "modelled, not verified: traits.rs (VmFunction impls), vm/instr_execution.rs (call_native), vm.rs "
             "(run_function), value.rs (TryFrom conversions), the natives registered by harness/src/vmrun.rs",
         ],
         assumptions=[
-            "PARTIAL: theorems cover one wrapper of every arity 1-4 (str1, nil1 = Nilable<i64>, sub2, mix3, t4) with the "
-            "i64 / f64 / bool / &str / Value / Nilable conversions, conversion failures (str1, t4: last parameter "
-            "first) and error wrapping for every menu native; the remaining natives of the menu are claimed by the "
-            "correspondence run and the conv_spec oracle only",
+            "PARTIAL. Argument passing is proved generically for every native of the menu (Vm.all_natives incl. the "
+            "library's __min / __max / __sort / __to_array): Vm.native_body = the typed wrapper of traits.rs over the "
+            "signature table VmNativeMenu.native_sig with the conversions VmNativeMenu.conv (i64 / f64 / bool / &str / "
+            "&CaoLangTable / Value / Nilable<T>), arguments in declaration order, conversion errors last-to-first, k "
+            "values consumed, TaskFailure{name}; that the bodies VmNativeMenu.native_fn and the signature table are "
+            "the Rust functions registered by vmrun.rs / stdlib.rs is claimed by the correspondence run (host log, "
+            "conv_spec oracle) only",
+            "re-entrant natives: proved what call1 / try1 / rb1 / call0 hand to run_function and what run_function "
+            "hands to the nested _run (entry point, stack, two frames with the offset below the arguments); "
             "reentry_balanced is proved from the point where the callee reaches its Return with the caller's stack "
-            "part and frames intact (C18_reentry_balanced_partial); that compiled callee bodies keep them intact "
-            "(frame discipline) is claimed by the rb1 oracle only",
-            "host functions are the fixed menu; `register_native_function` itself is not modelled (the reserved-name "
-            "rule is checked on the implementation directly)",
+            "part and frames intact (C18_reentry_balanced_partial), and outright for callees whose body is "
+            "straight-line ScalarNil / CopyLast / Pop code that stays above its frame base "
+            "(C18_reentry_balanced_straightline); that ALL compiled callee bodies keep them intact (frame discipline) "
+            "is claimed by the rb1 oracle only",
+            "registration: VmRegistry.v models the table of callables as handle -> (name, function) with overwrite on "
+            "an equal handle; HandleTable's own behaviour is C07's; the allocation failure of HandleTable::grow "
+            "during a registration is not modelled. The library's natives are protected by NAME only: a name with the "
+            "same 32-bit FNV-1a handle as a reserved one is accepted and replaces the library's native "
+            "(C18_std_native_shadowed_by_collision, 'tuewgsg' vs '__min', replayed on the crate by "
+            "`cao-verif-harness c18-witness`); C18_std_natives_kept therefore assumes that no accepted name has the "
+            "handle of a library native; the correspondence run uses one fixed registration history",
         ],
     ),
     "VM": dict(
